@@ -729,6 +729,9 @@ class C04(Prop):
         for env in ({"F": 5}, {"T": 1, "TRU": 2}, {"FALSEY": 3, "TRUEST": 4}, {"F": 5, "FA": 6, "FAL": 7, "FALS": 8}):
             for e, v in [("FALSE == FALSE", True), ("TRUE", True), ("TRUE != FALSE", True), ("FALSE", False), ("(TRUE) == TRUE", True), ("!(FALSE)", True)]:
                 out.append({"kind": "tok", "vars": dict(env), "expr": e, "ref": common.val_rec(v)})
+        # a sign immediately followed by the decimal point
+        for e, v in [("-.5", -0.5), ("2 * -.25", -0.5), ("1--.5", 1.5), ("(-.5)+1", 0.5), ("-.5+1", 0.5), ("3*-2", -6), ("1-.5", 0.5), (".5", 0.5), ("-5.", -5)]:
+            out.append({"kind": "tok", "vars": {}, "expr": e, "ref": common.val_rec(v)})
         # integer literals are exact at any size (no round trip through a double)
         for e, v in [("9007199254740993 - 9007199254740992", 1), ("10000000000000000000001 % 10", 1), ("9007199254740993 == 9007199254740992", False),
                      ("18446744073709551617 // 3", 18446744073709551617 // 3), ("9007199254740993", 9007199254740993), ("(9007199254740993)+0", 9007199254740993),
@@ -866,6 +869,10 @@ class C05(RefProp):
 
     def corpus(self, tier):
         out = []
+        # truth of a condition is the truth of its VALUE: fractions, negative numbers, strings, lists of one
+        for cond, truthy in [("1/2", True), ("0-0.25", True), ("x", True), ("0.0", False), ("1/2-0.5", False), ("\"0\"", True), ("\"\"", False), ("0-1", True)]:
+            out.append(refcase("VAR x 0-0.25\nIF %s\n    STRING yes\nELSE\n    STRING no" % cond, ["STRING yes" if truthy else "STRING no"], {"x": -0.25}))
+            out.append(refcase("VAR x 0-0.25\nIF FALSE\n    STRING a\nELIF %s\n    STRING yes\nELSE \n    STRING no" % cond, ["STRING yes" if truthy else "STRING no"], {"x": -0.25}))
         for arms in range(1, 5):
             for truth in itertools.product([False, True], repeat=arms):
                 for els in (False, True):
@@ -886,6 +893,10 @@ class C05(RefProp):
         return out
 
 
+def refcase(text, out, vars_=None, prints=None):
+    return comp(text, {}, ref={"status": "OK", "out": out, "vars": vars_ or {}, "prints": prints or []})
+
+
 class C06(RefProp):
     id = "C06"
     focus = "loop"
@@ -894,6 +905,10 @@ class C06(RefProp):
 
     def corpus(self, tier):
         out = []
+        # BREAK and PAUSE are keys, not loop control: their lines are emitted and the loop goes on
+        out.append(refcase("REPEAT 3\n    BREAK\n    STRING x", ["BREAK", "STRING x"] * 3))
+        out.append(refcase("REPEAT i,2\n    IF i==0\n        break\n    PAUSE\n    $STRING i", ["BREAK", "PAUSE", "STRING 0", "PAUSE", "STRING 1"]))
+        out.append(refcase("WHILE w,w<2\n    Break\n    CTRL BREAK", ["BREAK", "CTRL BREAK"] * 2))
         for n in [0, 1, 2, 3]:
             for ctr in (None, "i"):
                 for brk in (None, "break", "continue"):
@@ -941,6 +956,15 @@ class C07(RefProp):
             if k:
                 prog2 = [("func", "f", params, body), ("run", "f", args[:-1])]
                 out.append(comp("\n".join(refsem.to_lines(prog2)), {}, ref=refsem.run_ref(prog2)))
+        # a definition brought in by START / STARTENV replaces the earlier one of the same name (also a different arity)
+        import props2
+        for imp in ("START", "STARTENV", "STARTCODE"):
+            for libdef in ("FUNC f\n    STRING new", "FUNC f a\n    $STRING \"new\"+a"):
+                out.append(props2.fcase({("main.txt",): "FUNC f\n    STRING old\nRUN f\n%s lib\nRUN f\nRUN f 1" % imp, ("lib.txt",): libdef}, ("main.txt",)))
+                out.append(props2.fcase({("main.txt",): "FUNC f\n    STRING old\nIF TRUE\n    %s lib\n    RUN f\nRUN f" % imp, ("lib.txt",): libdef}, ("main.txt",)))
+        # booleans stay booleans through argument lists
+        for t in ["FUNC two a,b\n    $STRING a\n    $STRING \"v:\"+b\nRUN two TRUE,2\nRUN two 1==2,FALSE", "VAR flag FALSE\nFUNC g flag,n\n    PASS\nRUN g TRUE,1\n$STRING flag"]:
+            out.append(comp(t))
         # RETURN from nested loops/ifs ends only the function; at top level ends the program
         prog = [("func", "f", [], [("repeat", "i", 3, [("if", [(("==", ("v", "i"), 1), [("emit", "r"), ("return",)])], None), ("emit", "b")]), ("emit", "unreached")]),
                 ("run", "f", []), ("emit", "after"), ("return",), ("emit", "never")]
@@ -980,6 +1004,12 @@ class C08(RefProp):
                     out.append({"kind": "comp", "files": {"main.txt": "\n".join(main), "sub.txt": sub}, "main": "main.txt", "opts": {}})
                     fn = ["VAR x 1", "FUNC f", "    " + imp + " sub", "RUN f", "$STRING x"]
                     out.append({"kind": "comp", "files": {"main.txt": "\n".join(fn), "sub.txt": sub}, "main": "main.txt", "opts": {}})
+        # the system variable follows the same block rules: set inside blocks at any depth, read afterwards
+        for t in ["IF TRUE\n    DEFAULT_DELAY 5\n$STRING $DEFAULT_DELAY", "FUNC f\n    REPEAT 2\n        IF TRUE\n            DEFAULTDELAY $DEFAULT_DELAY+7\nRUN f\n$STRING $DEFAULT_DELAY",
+                  "DEFAULT_DELAY 3\nWHILE w,w<2\n    DEFAULT_DELAY $DEFAULT_DELAY+1\n    $STRING $DEFAULT_DELAY\n$STRING $DEFAULT_DELAY", "REPEAT 3\n    DEFAULT_DELAY 9\n    BREAKLOOP\n$STRING $DEFAULT_DELAY",
+                  # a parameter / counter named like a visible variable: the variable is still there afterwards
+                  "VAR n 10\nFUNC f n\n    PASS\nRUN f 7\n$STRING n\nEXIST n", "FUNC down n\n    IF n>0\n        RUN down n-1\n    $STRING n\nRUN down 2", "REPEAT count,2\n    FUNC p count\n        PASS\n    RUN p 5\n    $STRING count"]:
+            out.append(comp(t))
         return out
 
 
@@ -1013,6 +1043,11 @@ class C18(RefProp):
             out.append(F(files, ("m.txt",), {"stack_limit": L}))
         for t in ["FUNC f\n    PRINT a\n\n    PRINT b\n  \n    $PRINT 1+1\nRUN f", "IF TRUE\n\n    PRINT x\n\n\n    PRINT y", "REPEAT 2\n    PRINT\n        g1\n\n        g2\n\n    PRINT after"]:
             out.append(comp(t))
+        # imported files end their lines at "\n" only, like the main file: prints after a form feed / U+2028 keep
+        # their line numbers and their text
+        for ch in ("\x0c", "\u2028", "\x0b", "\x85"):
+            for kind in ("START", "STARTENV", "STARTCODE"):
+                out.append(F({("m.txt",): "PRINT m\n%s lib\nPRINT end" % kind, ("lib.txt",): "PRINT one\n" + ch + "\nPRINT two" + ch + "tail\nSTRING x\nPRINT three"}, ("m.txt",)))
         for kind in ("START", "STARTENV", "STARTCODE"):
             out.append(F({("m.txt",): "PRINT m1\nIF TRUE\n    PRINT m2\n    %s a\nPRINT never" % kind, ("a.txt",): "PRINT a1\nSTART b", ("b.txt",): "PRINT b1\nDELAY -1"}, ("m.txt",),
                          expect_prints=["m1", "m2", "a1", "b1"]))
